@@ -148,7 +148,15 @@ EXPORT errno_t _wctomb_s_chk(int *restrict retvalp, char *restrict dest,
         }
     }
 
-    len = *retvalp = wctomb(dest, wc);
+    if (dest) {
+        /* wctomb stores up to MB_CUR_MAX bytes: convert into a local buffer, copy what fits */
+        char mb[MB_LEN_MAX];
+        len = *retvalp = wctomb(mb, wc);
+        if (len > 0 && (rsize_t)len < dmax)
+            memcpy(dest, mb, (size_t)len);
+    } else {
+        len = *retvalp = wctomb(dest, wc);
+    }
 
     if (likely(len > 0 && (rsize_t)len < dmax)) {
 #ifdef SAFECLIB_STR_NULL_SLACK
